@@ -70,10 +70,11 @@ def meta_validate(ctx, trace, nt, bad, what):
                     % (res["violated"], what, res["l"]), rp)
 
 
-def meta_s2i(ctx, replay_path, nt, bad, label, p_keep=0.02, keep=300):
+def meta_s2i(ctx, replay_path, nt, bad, label, p_keep=0.02, keep=300, dedupe=False):
     out = ctx.fresh("s2i", "ndjson")
     st = run_bin(ctx, "meta", ["replay", "--in", replay_path, "--out", out, "--seed", ctx.seed, "--nt", nt,
-                               "--bad", ",".join(str(b) for b in bad), "--p-keep", p_keep, "--keep-matching", keep],
+                               "--bad", ",".join(str(b) for b in bad), "--p-keep", p_keep, "--keep-matching", keep]
+                 + (["--dedupe"] if dedupe else []),
                  features=FEATURES)
     if st["behaviours"] == 0:
         raise ToolError("TLC emitted no history for %s" % label)
@@ -115,8 +116,8 @@ def check_C17(ctx):
         r = meta_mc(ctx, "SpecD", consts(4, [4], [1], 6, 1, hist=True, maxreg=3), MC_INVS, "directed-q", emit="EmitD")
         meta_s2i(ctx, r["replay"], 4, [4], "directed-q")
         r = meta_mc(ctx, "SpecF", consts(4, [3, 4], [1, 3], 4, 2, hist=True, h=40), MC_INVS, "sim-q", emit="Emit",
-                    simulate=("num=400", 41))
-        meta_s2i(ctx, r["replay"], 4, [3, 4], "sim-q", p_keep=0.1, keep=40)
+                    simulate=("num=40", 41))
+        meta_s2i(ctx, r["replay"], 4, [3, 4], "sim-q", p_keep=0.1, keep=40, dedupe=True)
         meta_i2s(ctx, 40, 300, 8, [7, 8])
     else:
         meta_mc(ctx, "SpecF", consts(4, [4], [1], 2, 1), MC_INVS, "free-t1")
@@ -126,8 +127,8 @@ def check_C17(ctx):
         r = meta_mc(ctx, "SpecD", consts(4, [1, 3], [2], 6, 1, hist=True, maxreg=3), MC_INVS, "directed-t2", emit="EmitD")
         meta_s2i(ctx, r["replay"], 4, [1, 3], "directed-t2")
         r = meta_mc(ctx, "SpecF", consts(5, [2, 5], [1, 2], 5, 3, hist=True, h=80), MC_INVS, "sim-t", emit="Emit",
-                    simulate=("num=4000", 81))
-        meta_s2i(ctx, r["replay"], 5, [2, 5], "sim-t", p_keep=0.05, keep=100)
+                    simulate=("num=500", 81))
+        meta_s2i(ctx, r["replay"], 5, [2, 5], "sim-t", p_keep=0.05, keep=100, dedupe=True)
         meta_i2s(ctx, 300, 400, 8, [7, 8])
         meta_i2s(ctx, 60, 400, 8, [1, 4, 6], seed_off=1)
         meta_i2s(ctx, 60, 400, 5, [], seed_off=2)
